@@ -31,11 +31,21 @@ def getResourceSubscription (eid : Nat) (q : String) : M Nat := do
     modEntry eid fun e => e.withIdx (e.idx.register q rs)
     return rs
 
-/-- `ResourceSubscription.unregister`. -/
-def unregister (eid rs : Nat) : M Unit := do
-  let r ← getRes eid rs
-  modEntry eid fun e => e.withIdx (e.idx.unregister r.query r.links)
-  modRes eid rs fun r => { r with links := [] }
+/-- `ResourceSubscription.unregister`, on the entry. -/
+def Entry.unregisterRes (e : Entry) (rs : Nat) : Entry :=
+  let r := tget e.ress rs
+  let e1 := e.withIdx (e.idx.unregister r.query r.links)
+  { e1 with ress := tset e1.ress rs { tget e1.ress rs with links := [] } }
+
+def unregister (eid rs : Nat) : M Unit := modEntry eid fun e => e.unregisterRes rs
+
+/-- `ResourceSubscription.Unsubscribe(sub)` without the count: the subscriber leaves the resource;
+    a query resource without subscribers is unregistered. -/
+def Entry.dropSub (e : Entry) (rs : Nat) (sub : SubRef) : Entry :=
+  let r := tget e.ress rs
+  let r1 := { r with subs := r.subs.filter (· != sub) }
+  let e1 := { e with ress := tset e.ress rs r1 }
+  if r1.query != "" && r1.subs.isEmpty then e1.unregisterRes rs else e1
 
 def sendGet (eid rs : Nat) (query : String) (reset : Bool) (t : Option Nat) : M Unit := do
   match t with
@@ -205,9 +215,7 @@ def runCItem (eid : Nat) (it : CItem) : M Unit := do
       if r.state.toNat ≤ 2 then cacheEnqueueUnlock eid .noop
       else registerReq subject s!"query={q}" (.query eid rs)
   | .unsubscribe rs sub =>
-    modRes eid rs fun r => { r with subs := r.subs.filter (· != sub) }
-    let r ← getRes eid rs
-    if r.query != "" && r.subs.isEmpty then unregister eid rs
+    modEntry eid fun e => e.dropSub rs sub
     removeCount eid 1
   | .accessDone sub a th =>
     let _ ← connEnqueue sub.cid (.accessAnswer sub.uid a)
